@@ -4,11 +4,13 @@
    over  * every spelling = base word of the table (all keys of ast.type_names, C99 bool, FILE, GStrv,
            the six GLib containers, a record, an enum and an unknown typedef of the namespace)
            x pointer depth 0..3 x const/volatile at every level (depth 3: const only)
-           x position {param, return, field, constant}                      (Mode = "types")
+           x position {param, return, field, constant}                      (Mode = "types";
+           "types_q" = quick tier: every base at depth <= 1, representatives of every group deeper)
          * every arrangement of <= MaxParams parameters drawn from {cb, ud, pt, dn, as, in, er}
            x {function, method, callback typedef}                           (Mode = "arr")
-   One state per case (Init) plus one per scanned case (Scan), so counterexamples are single cases.
-   The same case sets are exported for replay against the real scanner (S->C). *)
+   One initial state per case plus one per scanned case (Scan applies the implementation layer), so a
+   counterexample is a single case.  The same case set is exported for replay against the real
+   scanner (S->C) when the harness sets CASES_FILE. *)
 EXTENDS Defaults, Json, IOUtils, SequencesExt
 
 CONSTANTS Mode, MaxParams
@@ -19,45 +21,57 @@ NoQuals(d) == [i \in 1..(d + 1) |-> ""]
 
 AllBases == (DOMAIN TypeNames) \cup BoolWords \cup (DOMAIN Containers) \cup (DOMAIN NsTypes)
             \cup {"FILE", "GStrv", "FooUnknown"}
+\* quick tier: representatives of every target group at depth 2..3
+RepBases == {"int", "unsigned long", "char", "gchar", "void", "_Bool", "gboolean", "guint8", "gsize", "GType", "gpointer",
+             "gconstpointer", "FILE", "GStrv", "GList", "GHashTable", "GByteArray", "FooRec", "FooEnum", "FooUnknown",
+             "utf8", "time_t", "long long", "gdouble"}
 WitnessBases == {"void", "_Bool", "GType", "int", "char"}
+AnnBases == {"int", "char", "gpointer", "FooRec", "FooEnum"}
 
-ValOf(B) == UNION {{[k |-> "val", pos |-> p, ann |-> "", base |-> b, depth |-> d, quals |-> q] :
-                        b \in B, p \in Positions, q \in QSeqs(d)} : d \in 0..3}
-\* `void` by value only makes sense as a return type
-Sensible(c) == ~(c.base = "void" /\ c.depth = 0 /\ c.pos # "return")
+\* (operators with a dummy parameter, not zero-arity definitions: TLC pre-evaluates and deep-normalises
+\*  zero-arity constant definitions at start-up.  One flat comprehension per set: unions and filters of
+\*  large record sets are several times slower in TLC.)
+\* `void` by value in parameter / field / constant position is not a C declaration: those 12 cases are
+\* in the model (the property layer is silent on them) but are not rendered by the harness.
+ValSet(B, D) == {[k |-> "val", pos |-> p, ann |-> "", base |-> b, depth |-> Len(q) - 1, quals |-> q] :
+                    b \in B, p \in Positions, q \in UNION {QSeqs(d) : d \in D}}
 \* supplement: a bare direction annotation (nothing else) on a pointer parameter
-AnnCases == {[k |-> "val", pos |-> "param", ann |-> a, base |-> b, depth |-> d, quals |-> NoQuals(d)] :
-                a \in Anns \ {""}, b \in {"int", "char", "gpointer", "FooRec", "FooEnum"}, d \in 1..2}
-ValCases == {c \in ValOf(AllBases) : Sensible(c)} \cup AnnCases
+AnnCases(z) == {[k |-> "val", pos |-> "param", ann |-> a, base |-> b, depth |-> d, quals |-> NoQuals(d)] :
+                   a \in Anns \ {""}, b \in AnnBases, d \in 1..2}
+RoleSeqs(z) == UNION {[1..n -> Roles] : n \in 0..MaxParams}
 
-RoleSeqs == UNION {[1..n -> Roles] : n \in 0..MaxParams}
-ArrCases == {[k |-> "arr", kind |-> kd, roles |-> r] : kd \in Kinds, r \in RoleSeqs}
-
-Cases == CASE Mode = "types" -> ValCases
-           [] Mode = "arr" -> ArrCases
-           [] Mode = "witness" -> {c \in ValOf(WitnessBases) : Sensible(c) /\ c.depth <= 1}
+Cases(z) == CASE Mode = "types" -> ValSet(AllBases, 0..3) \cup AnnCases(z)
+              [] Mode = "types_q" -> ValSet(AllBases, 0..1) \cup ValSet(RepBases, 2..3) \cup AnnCases(z)
+              [] Mode = "witness" -> ValSet(WitnessBases, 0..1)
+              [] Mode = "arr" -> {[k |-> "arr", kind |-> kd, roles |-> r] : kd \in Kinds, r \in RoleSeqs(z)}
 
 NoOut == [present |-> FALSE]
 VARIABLES case, out
-Init == case \in Cases /\ out = NoOut
+vars == <<case, out>>
+Init == case \in Cases(0) /\ out = NoOut
 Scan == out = NoOut /\ out' = Impl(case) /\ UNCHANGED case
 Next == Scan
-Spec == Init /\ [][Next]_<<case, out>>
+Spec == Init /\ [][Next]_vars
 
 Scanned == out # NoOut
 \* implementation layer => property layer, except the triaged deviations D1-D3
 ImplSatisfiesProperty == Scanned => \A cl \in Names(case) : Holds(cl, case, out) \/ Triaged(cl, case)
 \* the same without the exemption: TLC's counterexample is the witness of a deviation
 NoDeviation == Scanned => \A cl \in Names(case) : Holds(cl, case, out)
+\* one witness per triaged deviation (thorough tier)
+W_D1 == Scanned => Holds("CTypeKept", case, out)
+W_D2 == (Scanned /\ case.base \in BoolWords) => Holds("TypeName", case, out)
+W_D3 == (Scanned /\ case.base = "GType") => Holds("TypeName", case, out)
 \* the exemption is not vacuous: every triaged pair really is a deviation of the implementation layer
 TriagedAreDeviations == Scanned => \A cl \in Names(case) : Triaged(cl, case) => ~Holds(cl, case, out)
-\* every clause is exercised by some case of the configuration is shown by the coverage of Ante below
+\* DESIGN C02: every parameter has a transfer; closure/destroy indices refer to post-removal positions
 IndicesPostRemoval == (Scanned /\ case.k = "arr") => ArrIndicesOK(case, out)
 \* the statement's sentences never contradict each other on a case (both "none" and "full" demanded)
-Consistent == Scanned => ~(case.k = "val" /\ ValAnte("RetStringFull", case, out) /\
-                           (ValAnte("RetConstNone", case, out) \/ ValAnte("RetBasicNone", case, out)))
+Consistent == (Scanned /\ case.k = "val") =>
+                 ~(ValAnte("RetStringFull", case, out) /\
+                   (ValAnte("RetConstNone", case, out) \/ ValAnte("RetBasicNone", case, out)))
 
 \* ---- case export (only when the harness asks for it)
-Export == IF "CASES_FILE" \in DOMAIN IOEnv THEN ndJsonSerialize(IOEnv.CASES_FILE, SetToSeq(Cases)) ELSE TRUE
+Export == IF "CASES_FILE" \in DOMAIN IOEnv THEN ndJsonSerialize(IOEnv.CASES_FILE, SetToSeq(Cases(0))) ELSE TRUE
 ASSUME Export
 =============================================================================
